@@ -52,6 +52,10 @@ type rtCfg struct {
 	LingerMs   int `json:"lingerms"`   // how long a server that said GOAWAY keeps the connection
 	StallAfter int `json:"stallafter"` // every server stops reading after this many arrivals (0: never) ...
 	PipeCap    int `json:"pipecap"`    // ... and the client->server pipe holds at most this many octets
+	SlowAfter  int `json:"slowafter"`  // every server reads slowly after this many arrivals (0: never): ...
+	SlowMs     int `json:"slowms"`     // ... at most 16 KiB per read, one read per SlowMs
+	BigWin     bool `json:"bigwin"`    // servers grant 16 MiB stream and connection windows up front (flow control never limits a body)
+	Scribble   bool `json:"scribble"`  // callers overwrite their request body the moment RoundTrip returns (as a caller reusing its buffers would)
 }
 
 type rtScenario struct {
@@ -84,6 +88,7 @@ type rtConn struct {
 	hbuf   bytes.Buffer
 	hdec   *hpack.Decoder
 	closed atomic.Bool
+	narr   atomic.Int32
 	gaSent bool
 	gaLast uint32
 	// header block being assembled
@@ -178,7 +183,7 @@ func (s *rtConn) serve() {
 		s.c.Close()
 		return
 	}
-	s.fr = xh2.NewFramer(s.c, s.c)
+	s.fr = xh2.NewFramer(s.c, &rtSlowReader{s: s})
 	s.fr.AllowIllegalReads = true
 	s.fr.SetMaxReadFrameSize(1<<24 - 1)
 	s.henc = hpack.NewEncoder(&s.hbuf)
@@ -187,8 +192,14 @@ func (s *rtConn) serve() {
 	if s.r.sc.Cfg.MCS > 0 {
 		ss = append(ss, xh2.Setting{ID: xh2.SettingMaxConcurrentStreams, Val: uint32(s.r.sc.Cfg.MCS)})
 	}
+	if s.r.sc.Cfg.BigWin {
+		ss = append(ss, xh2.Setting{ID: xh2.SettingInitialWindowSize, Val: 1 << 24})
+	}
 	s.wmu.Lock()
 	s.fr.WriteSettings(ss...)
+	if s.r.sc.Cfg.BigWin {
+		s.fr.WriteWindowUpdate(0, 1<<24)
+	}
 	s.wmu.Unlock()
 	s.emit(sEvent{"k": "connup"})
 	for {
@@ -252,6 +263,20 @@ func (s *rtConn) serve() {
 	}
 }
 
+// rtSlowReader is the scripted server's view of the connection: a peer that, from some point on, reads slowly.
+type rtSlowReader struct{ s *rtConn }
+
+func (r *rtSlowReader) Read(b []byte) (int, error) {
+	cfg := &r.s.r.sc.Cfg
+	if cfg.SlowAfter > 0 && int(r.s.narr.Load()) >= cfg.SlowAfter && !r.s.r.over.Load() {
+		time.Sleep(time.Duration(cfg.SlowMs) * time.Millisecond)
+		if len(b) > 16384 {
+			b = b[:16384]
+		}
+	}
+	return r.s.c.Read(b)
+}
+
 func (s *rtConn) blockDone() {
 	fields, err := s.hdec.DecodeFull(s.blk)
 	sid := s.blkSid
@@ -276,6 +301,7 @@ func (s *rtConn) blockDone() {
 		tag, _ = strconv.Atoi(path[i+3:])
 	}
 	s.tagOf[sid] = tag
+	s.narr.Add(1)
 	s.r.mu.Lock()
 	j := s.r.arrived[tag]
 	s.r.arrived[tag] = j + 1
@@ -467,6 +493,15 @@ func runRtScenario(sc rtScenario) (evs []sEvent) {
 				}
 			}
 			r.emit(e)
+			if sc.Cfg.Scribble && q.BodyN > 0 {
+				// Request and Response are the caller's again: it reuses its buffers at once
+				b := req.Body()
+				for j := range b {
+					b[j] = 'S'
+				}
+			}
+			fasthttp.ReleaseRequest(req)
+			fasthttp.ReleaseResponse(res)
 			returned[i].Store(true)
 		}(i)
 	}
